@@ -26,7 +26,7 @@ theorem C02_tie_decided_path :
       ["ValidateDecided", "InstanceForHeight", "FindInstance", "addNewInstance", "NewInstance", "AddMsg", "addNewInstance", "IsDecided", "AddMsg",
        "LongestUniqueSignersForRoundAndRoot", "AddMsg", "FindInstance", "SaveInstance", "NewDecidedHandler"] ∧
     Gen.calls_qbft_SaveInstance = ["SaveHighestAndHistoricalInstance", "SaveInstance", "SaveHighestInstance"] ∧
-    Gen.src_qbft_SignedMessageValidate = "617a0fc1d8b6d278" ∧ Gen.src_qbft_MessageValidate = "2cf46fcf3e43f0b4" := by decide
+    Gen.src_qbft_SignedMessageValidate = "7ce2f626fc6e70d1" ∧ Gen.src_qbft_MessageValidate = "a786761f356b5525" := by decide
 
 /-- the local decision path: a commit is validated against the accepted proposal, counted per (round, root) over unique
     signers and aggregated; the proposal it refers to passed the leader, hash and value checks -/
@@ -38,7 +38,7 @@ theorem C02_tie_local_path :
     Gen.calls_qbft_node_isValidProposal =
       ["GetSigners", "VerifyByOperators", "MatchedSigners", "proposer", "Validate", "HashDataRoot", "isProposalJustification"] ∧
     Gen.calls_qbft_UponExistingInstanceMsg = ["InstanceForHeight", "IsDecided", "ProcessMsg", "broadcastDecided"] ∧
-    Gen.src_qbft_LongestUniqueSigners = "27eef36bfbdbbd06" ∧ Gen.src_qbft_AddFirstMsg = "9bf2e80fbd1d11d4" := by decide
+    Gen.src_qbft_LongestUniqueSigners = "f42a37f13008f105" ∧ Gen.src_qbft_AddFirstMsg = "c8cbb4f27824af62" := by decide
 
 /-- "2f+1 of 3f+1": for every committee size the node accepts, the quorum the shares are built with
     (`ComputeQuorumAndPartialQuorum`, translated from the Go source on every run) is 2f+1 with n = 3f+1 -/
